@@ -33,6 +33,12 @@ CHECKS = {
  "C14": ("6/C14", "TLA+ reference decoder CborLoadRef (tokenisation + grammar) evaluated by TLC on logged bytes; TLC model check of the machine stopping at the first item; trace validation (Trace_Sequence)",
          "For every (x, y) pair and every concatenation recorded from the real cbor_load, TLC computes from the logged bytes what x denotes and requires x and x.y to give that tree and read = |x|, and the cbor_sequence loop to split a concatenation into exactly its items ending at the buffer end.",
          "Trusted: TLC, recorder. x ranges over seeded random well-formed items; y over empty, single bytes (all 256 for the first 12 x), items, garbage, structural bytes."),
+ "C15": ("6/C15", "TLA+ CborFloat (IEEE-754 fields as integers; requirement + transcription of cbor_encode_half with explicit shift/narrowing checks); TLC model check MC_Float; TLC trace validation of every recorded float case (Trace_Float); UBSan",
+         "TLC checks for all 65,536 halves that the transcribed half-encoding algorithm inverts half decoding (NaN -> 0x7e00) and meets the requirement, and for every exponent x boundary mantissa x sign that it is total (shift counts in range, narrowings exact). Every real bit pattern case (all halves; singles/doubles per exponent class, strided and random; all 2^32 singles in thorough) is judged by TLC against CborFloat through the streaming decoder, cbor_load + getters, the encoders, cbor_serialize and a rebuilt item.",
+         "Trusted: TLC, recorder (logs raw bit patterns), UBSan for undefined shifts/casts. The exhaustive 2^32 sweep uses the class rule validated by TLC on the strided subset."),
+ "C16": ("6/C16", "TLA+ Utf8 (RFC 3629 ABNF + independent numeric definition, exact 14-class byte partition) checked by TLC (MC_Utf8); TLC trace validation of class-sequence and random-text records (Trace_Utf8)",
+         "TLC checks the ABNF transcription against a numeric definition (scalar decoding, no overlong, no surrogates, <= U+10FFFF) on every sequence of class representatives and proves the partition exact. The harness executes EVERY byte sequence up to 3 bytes (4 in thorough) through set_handle / build_stringn / cbor_load, logging per class sequence the representative's count and whether all members agreed; TLC judges each against Utf8.Reported, plus random valid texts with a fault injected at every position on concrete bytes.",
+         "Trusted: TLC, recorder; class-uniformity flag computed by the harness (code-vs-code), anchored by TLC's verdict on the representative and the partition-exactness invariant."),
  "C19": ("6/C19", "TLA+ CborDecoder/CborGrammar parametric in L; TLC model check for L=1,2,3; libcbor built through CMake with CBOR_MAX_STACK_SIZE in {1,2,3,(8,64,)2048}; TLC trace validation per L; small fixed native stack run",
          "TLC shows for L=1,2,3 and all bounded head strings that a frame push is refused exactly at depth L and reported as MEMERROR just past that head, and that empty definite containers never open a level. For each configured L the real library is built with that option and its executions on nesting families (every container kind, depths L-1, L, L+1, 4L) are validated by TLC against the spec instantiated with the same L; the whole pipeline is also run on a thread with a 64 KiB + 2 KiB*L stack.",
          "Trusted: TLC, recorder; native stack consumption is observed (SIGSEGV on an alternate stack), the spec bounds recursion depth only. Deep executions (L >= 64) are judged end to end by the grammar rather than stepped through the machine."),
